@@ -219,7 +219,7 @@ static void run(const std::vector<std::string>& t) {
 	else if (op == "copy") {
 		CK_ULONG h = H(1), o = H(2); Tpl tp; if (!parseTplTokens(t, 3, tp)) { fprintf(out, "= BADOP\n"); return; }
 		CK_OBJECT_HANDLE ho = 0;
-		CK_RV rv = C_CopyObject(h, o, tp.a.empty() ? NULL_PTR : tp.a.data(), tp.a.size(), &ho);
+		CK_ATTRIBUTE dummyA; CK_RV rv = C_CopyObject(h, o, tp.a.empty() ? &dummyA : tp.a.data(), tp.a.size(), &ho);
 		if (rv == CKR_OK) { res.push_back(ho); note(ho); }
 		fprintf(out, "= %lu %lu %lu %lu\n", rv, h, o, rv == CKR_OK ? ho : 0UL);
 	}
@@ -234,36 +234,44 @@ static void run(const std::vector<std::string>& t) {
 	}
 	else if (op == "setattr") {
 		CK_ULONG h = H(1), o = H(2); Tpl tp; if (!parseTplTokens(t, 3, tp)) { fprintf(out, "= BADOP\n"); return; }
-		fprintf(out, "= %lu %lu %lu\n", C_SetAttributeValue(h, o, tp.a.empty() ? NULL_PTR : tp.a.data(), tp.a.size()), h, o);
+		CK_ATTRIBUTE dummyA; fprintf(out, "= %lu %lu %lu\n", C_SetAttributeValue(h, o, tp.a.empty() ? &dummyA : tp.a.data(), tp.a.size()), h, o);
 	}
 	else if (op == "getattr") {
 		// getattr h o type:cap ...   cap = n (NULL pointer) | <bytes of buffer>
+		// The call is made twice with different fill patterns (it has no side effects): a buffer byte that differs
+		// between the two runs was not written by the library.
 		CK_ULONG h = H(1), o = H(2);
 		size_t n = t.size() - 3;
-		std::vector<CK_ATTRIBUTE> a(n); std::vector<Bytes> bufs(n); std::vector<long> caps(n);
 		const size_t GUARD = 32;
+		std::vector<CK_ATTRIBUTE> a1(n), a2(n); std::vector<Bytes> b1(n), b2(n); std::vector<long> caps(n);
 		for (size_t i = 0; i < n; i++) {
 			size_t c = t[3+i].find(':');
-			a[i].type = strtoul(t[3+i].substr(0, c).c_str(), NULL, 16);
+			a1[i].type = a2[i].type = strtoul(t[3+i].substr(0, c).c_str(), NULL, 16);
 			std::string cap = t[3+i].substr(c+1);
-			if (cap == "n") { caps[i] = -1; a[i].pValue = NULL_PTR; a[i].ulValueLen = 0; }
-			else { caps[i] = atol(cap.c_str()); bufs[i].assign(caps[i] + GUARD, 0xA5); a[i].pValue = bufs[i].data(); a[i].ulValueLen = caps[i]; }
-		}
-		CK_RV rv = C_GetAttributeValue(h, o, n ? a.data() : NULL_PTR, n);
-		fprintf(out, "= %lu %lu %lu", rv, h, o);
-		for (size_t i = 0; i < n; i++) {
-			long len = (a[i].ulValueLen == (CK_ULONG)-1) ? -1 : (long)a[i].ulValueLen;
-			std::string data = "-";
-			bool overrun = false;
-			if (caps[i] >= 0) {
-				// bytes the library wrote: anything in the caller's buffer that is not the fill pattern any more
-				size_t cap = caps[i];
-				for (size_t k = cap; k < cap + GUARD; k++) if (bufs[i][k] != 0xA5) overrun = true;
-				size_t wrote = 0; for (size_t k = 0; k < cap; k++) if (bufs[i][k] != 0xA5) wrote = k + 1;
-				if (len >= 0 && (size_t)len <= cap) data = hex(bufs[i].data(), len);       // the value
-				else if (wrote) data = "W" + hex(bufs[i].data(), wrote);                    // wrote without a valid length
+			if (cap == "n") { caps[i] = -1; a1[i].pValue = a2[i].pValue = NULL_PTR; a1[i].ulValueLen = a2[i].ulValueLen = 0; }
+			else {
+				caps[i] = atol(cap.c_str());
+				b1[i].assign(caps[i] + GUARD, 0xA5); b2[i].assign(caps[i] + GUARD, 0x5A);
+				a1[i].pValue = b1[i].data(); a2[i].pValue = b2[i].data(); a1[i].ulValueLen = a2[i].ulValueLen = caps[i];
 			}
-			fprintf(out, " %lx:%ld:%s%s", a[i].type, len, data.c_str(), overrun ? "!OVERRUN" : "");
+		}
+		CK_ATTRIBUTE dummyA;
+		CK_RV rv = C_GetAttributeValue(h, o, n ? a1.data() : &dummyA, n);
+		CK_RV rv2 = C_GetAttributeValue(h, o, n ? a2.data() : &dummyA, n);
+		fprintf(out, "= %lu %lu %lu", rv, h, o);
+		if (rv2 != rv) fprintf(out, " !UNSTABLE");
+		bool detail = (rv == CKR_OK || rv == CKR_ATTRIBUTE_SENSITIVE || rv == CKR_ATTRIBUTE_TYPE_INVALID || rv == CKR_BUFFER_TOO_SMALL);
+		for (size_t i = 0; i < n; i++) {
+			long len = (a1[i].ulValueLen == (CK_ULONG)-1) ? -1 : (long)a1[i].ulValueLen;
+			size_t wrote = 0; bool overrun = false;
+			if (caps[i] >= 0) {
+				size_t cap = caps[i];
+				for (size_t k = 0; k < cap + GUARD; k++) if (b1[i][k] == b2[i][k]) { if (k < cap) wrote = k + 1; else overrun = true; }
+			}
+			if (detail) {
+				std::string data = wrote ? hex(b1[i].data(), wrote) : "-";
+				fprintf(out, " %lx:%ld:%s%s", a1[i].type, len, data.c_str(), overrun ? "!OVERRUN" : "");
+			} else if (wrote || overrun || (caps[i] >= 0 ? len != caps[i] : len != 0)) fprintf(out, " !WROTE");
 		}
 		fprintf(out, "\n");
 	}
